@@ -47,6 +47,7 @@ T=[
 ("F36","C08","sample_covariance_onepass",["C08/covariance/onepass"],"sample_covariance_onepass lacks the -sum(u)sum(v)/n term: 2.5 instead of 1 on x = y = (0,1,2)"),
 ("F37","C04","element-wise operations on an empty matrix",["C04/Matrix/empty/panic"],"every value-returning element-wise operator/map on Matrix::empty() panics 'invalid shape'"),
 ("F39","C01","solve and solve_sys take the Cholesky route only",["C01/solve/residual","C01/solve_sys/residual","C01/invert_matrix/residual"],"solve/solve_sys/invert_matrix: the routing's symmetry test has an absolute tolerance of EPSILON, so a tiny-scaled non-symmetric matrix (entries ~1e-17) is handed to Cholesky, which reads one triangle: solve(&[4e-17,1e-17,3e-17,3e-17],&[1,2]) returns the solution of the symmetrised system"),
+("F41","C10","Levenberg-Marquardt accepts a step only",["C10/lm/descent"],"LM accepted any step with a positive gain ratio; with a (nearly) singular damped system the predicted reduction can be non-positive or non-finite, so an increase of the RSS over a negative prediction counted as a gain and optimize returned parameters worse than the start (gauss-peak, 139 points, tau = 1, budget 7: RSS 658 vs 183). Latent since the snapshot, masked there by the inconsistent predicted-reduction formula that F40 corrected; surfaced in a thorough run after F40"),
 ("F40","C10","Levenberg-Marquardt gain ratio",["C10/lm/linear-reaches-ls"],"LM computes the predicted reduction of its gain ratio for an unscaled damping term although the damping is mu*diag(JtJ): with basis columns of different size mu grows after accepted steps and the iteration stalls short of the least-squares solution whatever the budget (p0*0.01 + p1*x + p2*x^2 on 7 points: p0 = 0.0095217 instead of 0.0095238; 5 parameters / 120 points with column scales 0.01..1000: distance 0.57)"),
 ("F38","C06","GLM fit only reports convergence",["C06/score/premature-stop"],"GLM::fit returns Ok far from the optimum: the monitored quantity is non-monotone and its relative change dips below the tolerance (Bernoulli n=37 alpha=10 tol 6e-7: intercept 1.0412 vs 1.0677)"),
 ]
@@ -56,7 +57,7 @@ for f,prop,pre,sigs,what in T:
     for i,s in enumerate(sigs):
         out.append({"finding":f,"property":s.split("/")[0],"signature":s,"status":"fixed" if h else "pending-fix","commit":h,"what":what,
                     "record":f"fixed: property={s.split('/')[0]} {h} {what}" if h else None})
-doc={"comment":"Genuine defects of al-jshen/compute found by the checks (root causes F1..F40, one entry per signature under which a root cause was reported on the unchanged tree; logs in findings/*.before.txt, minimal reproductions in regress/<ID>/F*.json). status=open: reported as 'KNOWN-FINDING:' (exit 0) for exactly this signature; status=fixed: repaired by the named 'fix:' commit in /repo — suppresses nothing, the check reports the violation again if it returns. Never written at run time.",
+doc={"comment":"Genuine defects of al-jshen/compute found by the checks (root causes F1..F41, one entry per signature under which a root cause was reported on the unchanged tree; logs in findings/*.before.txt, minimal reproductions in regress/<ID>/F*.json). status=open: reported as 'KNOWN-FINDING:' (exit 0) for exactly this signature; status=fixed: repaired by the named 'fix:' commit in /repo — suppresses nothing, the check reports the violation again if it returns. Never written at run time.",
  "findings":out}
 json.dump(doc,open("/verif/known_findings.json","w"),indent=1)
 print(len(out),"entries;",sum(1 for e in out if e["status"]!="fixed"),"not yet fixed")
